@@ -14,8 +14,8 @@ Code modelled, branch by branch:
         `urlValuesDecoder.DecodePrimitive/DecodeArray/parseArray`, `parsePrimitive(Case)` → `decodeForm` …
         `MultipartBodyDecoder`                                           → `decodeMultipart`
   * openapi3filter/validate_request.go `ValidateRequestBody`             → `validateRequestBody` (defaults skipped) and
-        `validateRequestBodyD` (with the option SkipSettingDefaults: `DefaultsSet`, then `encodeBody` when a default
-        was set; openapi3filter/req_resp_encoder.go `bodyEncoders` → `hasEncoder`, tied to the table `Gen.bodyEncoders`)
+        `validateRequestBodyD` (with the option SkipSettingDefaults: `DefaultsSet`; the re-encoding of the body
+        when a default was set no longer influences the verdict, repair 4a27f6e)
   * openapi3/schema.go `visitJSON` / `visitJSONObject` … with `VisitAsRequest()` on the schema fragment `RS`
         (type, nullable, readOnly, writeOnly, minLength, maximum, properties, required,
          additionalProperties: true|false, items, not, oneOf, anyOf, allOf, minProperties, maxProperties, default)
@@ -32,7 +32,8 @@ Specification side (written from the property text, not from the control flow): 
 (precedence list), `SatReq` (+ executable `satReqB`), `specFormProp(s)`/`encodeForm` (what form fields encode,
 what a client writes), `specDecode`, `Accept` (+ executable `acceptB`).
 Exclusion classes (known findings): `formUnparsable` (FormFieldUnparsable, #20), lifted to whole cases by
-`exclFormUnparsable`; `exclNoBodyEncoder` (NoBodyEncoder, F-C06-4). Where a default decides the verdict
+`exclFormUnparsable` (the former classes ReadOnlyNull, FormNullForMissing, NoBodyEncoder were repaired in the
+repository: e80060c, 2621864, 4a27f6e; the model follows the repaired code). Where a default decides the verdict
 (`defaultsNeutral` false) the request-side reading of the property text does not apply (`caseNeutral`). (The former classes ReadOnlyNull and FormNullForMissing were repaired in the repository:
 e80060c, 2621864; the model follows the repaired code.)
 
@@ -584,9 +585,9 @@ def visItems (ds exro : Bool) : Option RS → List V → Option (List V)
   | some it => fun xs => mapOpt (visD ds exro it) xs
 end
 
-/-! #### does a default fire? (`defaultsSet` is called: the body will be re-encoded)
+/-! #### does a default fire? (some injection happens on the way — on the value or on a candidate's private copy)
 
-Over-approximation by full traversal: every member of `oneOf`, the members of `anyOf` up to the first match, the
+Used to state where `DefaultsSet` cannot matter (`no_fire_no_change`). Over-approximation by full traversal: every member of `oneOf`, the members of `anyOf` up to the first match, the
 members of `allOf` as long as they pass, every declared present property and every item — whether the visit
 passes or not (the deep copies are thrown away, the flag is not). -/
 
@@ -794,25 +795,6 @@ end
 default fires on this value, or the schema is composition-free with harmless defaults -/
 def defaultsNeutral (exro : Bool) (s : RS) (v : V) : Bool :=
   !firesD exro s v || (compFree s && dfltsHarmless exro s)
-
-mutual
-/-- a `default` at nesting depth ≥ 2 of an object schema (below a property or an item, looking through
-composition members) -/
-def nestedDflt : RS → Bool
-  | .mk _ _ _ _ _ _ props _ _ items nt oneOf anyOf allOf _ =>
-    nestedDfltP props || hasDfltO items || nestedDfltO nt || nestedDfltL oneOf || nestedDfltL anyOf || nestedDfltL allOf
-def nestedDfltP : List (Str × RS) → Bool
-  | [] => false
-  | (_, p) :: r =>
-    hasDfltP p.props || hasDfltO p.items || hasDfltO p.nt || hasDfltL p.oneOf || hasDfltL p.anyOf || hasDfltL p.allOf ||
-    nestedDfltP r
-def nestedDfltO : Option RS → Bool
-  | none => false
-  | some s => nestedDflt s
-def nestedDfltL : List RS → Bool
-  | [] => false
-  | s :: r => nestedDflt s || nestedDfltL r
-end
 
 /-! ### Decoders -/
 
@@ -1282,7 +1264,6 @@ inductive Outcome
   | badCT          -- "header Content-Type has unexpected value"
   | decodeErr      -- "failed to decode request body"
   | schemaErr      -- "doesn't match schema"
-  | rewriteErr     -- "rewriting failed" (defaults were set, no body encoder for the media type)
   | panic
   | unmodelled
   deriving DecidableEq, Repr
@@ -1304,21 +1285,17 @@ def validateRequestBody (reg : List (Str × DecK)) (rb : ReqBody) (ct : Str) (b 
         | .unmodelled => .unmodelled
         | .val v => if visit exro s v then .ok else .schemaErr
 
-/-- a body encoder is registered for the media type of the decoder (`bodyEncoders` of req_resp_encoder.go: exactly
-the media types decoded by `JSONBodyDecoder`; `Props/C06.lean` ties this to the regenerated table) -/
-def hasEncoder : Option DecK → Bool
-  | some .json => true
-  | _ => false
-
-/-- the last part of `ValidateRequestBody`: `VisitJSON(value, VisitAsRequest(), DefaultsSet(..)?, …)`, then — when
-a default was set — `encodeBody(value, mediaType)`. `ds` = `!Options.SkipSettingDefaults`; `enc` = an encoder exists.
-Without `DefaultsSet` the validator is the one of `visit`. -/
-def validateValue (enc exro ds : Bool) (s : RS) (v : V) : Outcome :=
+/-- the last part of `ValidateRequestBody`: `VisitJSON(value, VisitAsRequest(), DefaultsSet(..)?, …)`.
+`ds` = `!Options.SkipSettingDefaults`. Without `DefaultsSet` the validator is the one of `visit`. When a default was
+set the body is re-encoded for the next handler — only if an encoder is registered for the media type (since repair
+4a27f6e a missing encoder leaves the body as received; `json.Marshal` / `yaml.Marshal` of a decoded value do not
+fail): the verdict does not depend on it any more. -/
+def validateValue (exro ds : Bool) (s : RS) (v : V) : Outcome :=
   if !ds then (if visit exro s v then .ok else .schemaErr)
-  else if dfltUnderNot s || (!enc && nestedDflt s && firesD exro s v) then .unmodelled
+  else if dfltUnderNot s then .unmodelled
   else match visD true exro s v with
     | none => .schemaErr
-    | some _ => if firesD exro s v && !enc then .rewriteErr else .ok
+    | some _ => .ok
 
 /-- `ValidateRequestBody` with the option `SkipSettingDefaults` (`ds = false` ⇔ defaults are skipped) -/
 def validateRequestBodyD (reg : List (Str × DecK)) (rb : ReqBody) (ct : Str) (b : BodyIn) (exro ds : Bool) : Outcome :=
@@ -1334,7 +1311,7 @@ def validateRequestBodyD (reg : List (Str × DecK)) (rb : ReqBody) (ct : Str) (b
         | .err => .decodeErr
         | .panic => .panic
         | .unmodelled => .unmodelled
-        | .val v => validateValue (hasEncoder (lookup (base ct) reg)) exro ds s v
+        | .val v => validateValue exro ds s v
 
 /-! ### Specification of the whole decision (from the property text) -/
 
@@ -1581,15 +1558,6 @@ def decodedValue (reg : List (Str × DecK)) (rb : ReqBody) (ct : Str) (b : BodyI
     match mt.schema with
     | none => none
     | some s => match decodeBody reg ct s mt.encs b with | .val v => some (s, v) | _ => none
-
-/-- class `NoBodyEncoder` (finding F-C06-4, C13's F-C13-8 seen from the verdict): default-setting is on, a default
-fires on the decoded value, and no body encoder is registered for the request's media type (everything but the
-JSON family): `ValidateRequestBody` fails with "rewriting failed" whatever the value is -/
-def exclNoBodyEncoder (reg : List (Str × DecK)) (rb : ReqBody) (ct : Str) (b : BodyIn) (exro ds : Bool) : Bool :=
-  ds && !hasEncoder (lookup (base ct) reg) &&
-  (match decodedValue reg rb ct b with
-   | some (s, v) => firesD exro s v
-   | none => false)
 
 /-- the request-side reading decides the verdict of this case also under default-setting -/
 def caseNeutral (reg : List (Str × DecK)) (rb : ReqBody) (ct : Str) (b : BodyIn) (exro ds : Bool) : Bool :=
